@@ -180,9 +180,12 @@ class DTWSettings:
         return settings
 
     def set_max_dist(self, s1, s2):
-        _, _, ival_fn = innerdistance.inner_dist_fns(self.inner_dist, use_ndim=self.use_ndim)
         if self.use_pruning:
-            self.adj_max_dist = ival_fn(ub_euclidean(s1, s2, inner_dist=self.inner_dist))
+            # Keep the internal representation: a sqrt/square round trip can make the bound
+            # an ulp smaller than the cost of the path it stems from.
+            ub = ed.distance(s1, s2, inner_dist=self.inner_dist, use_ndim=self.use_ndim,
+                             keep_int_repr=True)
+            self.adj_max_dist = min(self.adj_max_dist, ub)
 
     def kwargs(self):
         return {
